@@ -363,8 +363,11 @@ func runC07(r *Run) {
 			hung = true
 		}
 		stall := meter.Stop()
-		if stall > 50*time.Millisecond {
-			bound += 4 * stall // the machine held the harness up: widen the bound by what was lost
+		if stall > 10*time.Millisecond {
+			// the machine held the harness up: widen the bound by what was lost. (A call can legitimately go through three
+			// attempts of one scaled liveness timeout each, and every hand-over between goroutines is exposed to such stalls;
+			// with the threshold at 50 ms a run on a loaded machine was seen to take 434 ms against the 400 ms bound.)
+			bound += 4 * stall
 			r.Count("timing-bound-widened:machine-stalled")
 		}
 		desc := map[string]any{"transport": sc.kind, "fault": sc.fault, "trigger": sc.trigger, "callers": sc.callers, "deadline_scale": scale07}
@@ -602,5 +605,6 @@ func runC07(r *Run) {
 	}
 	runC07Reuse(r)
 	runC07CloseRace(r)
-	r.Finish("part 1: scripted histories (query parks / reply / give up / stray reply) on one TraditionalDnsConn, comparing the kind of read deadline in force with the model after every operation; part 2: transports {pipeline over stream, pipeline over datagram, reuse} x faults {dial error, dial that blocks, write error, EOF, reset, short frame, garbage frame, peer close with queries in flight, silence, silence after traffic, callers cancelled while dialing then the dial succeeds} x {unbounded context, cancel, deadline, transport Close} x {1, 3} callers, with connection deadlines shortened 100x; after each: Close, a later call, open connections, goroutines in transport code; part 3: Close racing with the simultaneous failure of 8..31 connections with queries in flight; part 1b: scripted histories (query parks / reply / reply with the reader's deadline call held up and the next query sent the moment the reply is in / caller gives up / late reply / unexpected data) on one reused connection of a ReuseConnTransport, comparing the kind of read deadline in force with the model (run with the statement order regenerated from reusableConn.readLoop) after every operation; part 1c: the same window end to end with deadlines shortened 100x and a 1000 s idle timeout: 1..3 answered queries, then silence with an unbounded context; part 4: Close called while one caller is inside the transport's critical section (held there by a slow SetReadDeadline on the pooled connection) and 1..3 more calls queue up before or behind Close: Close and all calls return, no call is served on a connection dialed after Close returned, a later call fails at once, every connection dialed is closed, no goroutine is left")
+	runC07Upstreams(r)
+	r.Finish("part 1: scripted histories (query parks / reply / give up / stray reply) on one TraditionalDnsConn, comparing the kind of read deadline in force with the model after every operation; part 2: transports {pipeline over stream, pipeline over datagram, reuse} x faults {dial error, dial that blocks, write error, EOF, reset, short frame, garbage frame, peer close with queries in flight, silence, silence after traffic, callers cancelled while dialing then the dial succeeds} x {unbounded context, cancel, deadline, transport Close} x {1, 3} callers, with connection deadlines shortened 100x; after each: Close, a later call, open connections, goroutines in transport code; part 3: Close racing with the simultaneous failure of 8..31 connections with queries in flight; part 1b: scripted histories (query parks / reply / reply with the reader's deadline call held up and the next query sent the moment the reply is in / caller gives up / late reply / unexpected data) on one reused connection of a ReuseConnTransport, comparing the kind of read deadline in force with the model (run with the statement order regenerated from reusableConn.readLoop) after every operation; part 1c: the same window end to end with deadlines shortened 100x and a 1000 s idle timeout: 1..3 answered queries, then silence with an unbounded context; part 4: Close called while one caller is inside the transport's critical section (held there by a slow SetReadDeadline on the pooled connection) and 1..3 more calls queue up before or behind Close: Close and all calls return, no call is served on a connection dialed after Close returned, a later call fails at once, every connection dialed is closed, no goroutine is left; part 5: the upstreams built by NewUpstream {udp with its tcp retry, tcp, tcp+pipeline} on loopback sockets with the real timeouts x server behaviour per query {udp: answer, TC (at once / late), silence; tcp: answer, silence, close, half a frame, refused dial} x {unbounded context, cancel placed before the call / when the udp side has the query / when the tcp side has the (retried) query / at a random moment, deadline 30..150 ms, Close of the upstream placed likewise} x 1..5 concurrent calls: a call returns within 1 s of the end of its context and of Close, a failed connection gives an error, afterwards Close returns, a later call fails at once, connections opened = connections closed (EventObserver), no goroutine is left; calls whose phase at the end of the context is known are replayed on the wrapper model (phases and their contexts regenerated from upstream.go); thorough: unbounded context on a silent server returns with an error within 40 s")
 }
